@@ -327,6 +327,10 @@ func DB3ToMCAP(w io.Writer,
 			return fmt.Errorf("failed to write channel info: %w", err)
 		}
 	}
+	convertedTopics := make(map[uint16]bool)
+	for _, t := range topics {
+		convertedTopics[t.id] = true
+	}
 	seq := make(map[uint16]uint32)
 	err = transformMessages(db, func(rows *sql.Rows) error {
 		var topicID uint16
@@ -339,6 +343,11 @@ func DB3ToMCAP(w io.Writer,
 		)
 		if err != nil {
 			return err
+		}
+		// topics whose type is not a message type (services, actions) are not
+		// converted: their rows are skipped, like their topic records.
+		if !convertedTopics[topicID] {
+			return nil
 		}
 		err = writer.WriteMessage(&mcap.Message{
 			ChannelID:   topicID,
